@@ -98,7 +98,7 @@ func (d *caseDrawer) draw(r *rng.R, o drawOpts) *PCase {
 				continue
 			}
 		}
-		pc.Opt = gram.HarnessOpt{Bounds: r.Intn(100) < o.bounds}
+		pc.Opt = gram.HarnessOpt{Bounds: r.Intn(100) < o.bounds, NamedLists: r.Chance(1, 3)}
 		pc.prepare()
 		key := sha256.Sum256([]byte(pc.Lox))
 		d.mu.Lock()
